@@ -129,6 +129,13 @@ fn main() {
         selftest::write_c08t_inputs(s, n, &PathBuf::from(args.get(4).cloned().unwrap_or_else(|| "/verif/build/c08t.txt".into())));
         return;
     }
+    if id == "l32-inputs" {
+        let sd: u64 = args.get(2).and_then(|s| s.parse().ok()).unwrap_or(0);
+        let n: u64 = args.get(3).and_then(|s| s.parse().ok()).unwrap_or(8);
+        let which = args.get(4).cloned().unwrap_or_else(|| "both".into());
+        selftest::write_l32_inputs(sd, n, &which, &PathBuf::from(args.get(5).cloned().unwrap_or_else(|| "/verif/build/l32.txt".into())));
+        return;
+    }
     if id == "fuzz-seeds" {
         // regenerate the committed libFuzzer seed corpora from the generator families (fixed recipes)
         let dir = PathBuf::from(args.get(2).cloned().unwrap_or_else(|| "/verif/fuzz/seeds".into()));
@@ -192,12 +199,42 @@ fn main() {
                 }
             }
         }
+        if v["case"]["kind"] == "l32f" {
+            let file = verif_dir.join("build").join(format!("l32f-replay-{}.txt", std::process::id()));
+            std::fs::create_dir_all(verif_dir.join("build")).ok();
+            std::fs::write(&file, format!("{}\n", v["case"]["line"].as_str().unwrap_or(""))).expect("write replay input");
+            let out = std::process::Command::new("cargo")
+                .current_dir(verif_dir.join("harness"))
+                .args(["+nightly", "miri", "run", "-q", "--target", "i686-unknown-linux-gnu", "-p", "mlv", "--bin", "mlv-miri", "--", "L32F", file.to_str().unwrap()])
+                .env("MIRIFLAGS", "-Zmiri-tree-borrows -Zmiri-disable-isolation -Zmiri-no-extra-rounding-error")
+                .env("CARGO_TARGET_DIR", verif_dir.join("build").join("miri"))
+                .env("CARGO_NET_OFFLINE", "true")
+                .output();
+            let _ = std::fs::remove_file(&file);
+            match out {
+                Ok(o) if o.status.success() && String::from_utf8_lossy(&o.stdout).contains("MIRI-OK L32F cases=1") => {
+                    println!("replay: property {} holds on this input with 32-bit limbs", id);
+                    std::process::exit(0);
+                }
+                Ok(o) => {
+                    for l in String::from_utf8_lossy(&o.stdout).lines().filter(|l| l.starts_with("MIRI-VIOLATION")) {
+                        println!("replay: {l}");
+                    }
+                    println!("VIOLATION property={} replay={}", id, args[3]);
+                    std::process::exit(1);
+                }
+                Err(e) => {
+                    eprintln!("HARNESS-ERROR cannot run Miri: {e}");
+                    std::process::exit(2);
+                }
+            }
+        }
         if v["case"]["kind"] == "l32" {
             let seed = v["case"]["seed"].as_u64().unwrap_or(0).to_string();
             let count = v["case"]["count"].as_u64().unwrap_or(4).to_string();
             let st = std::process::Command::new("cargo")
                 .current_dir(verif_dir.join("harness"))
-                .args(["+nightly", "miri", "run", "-q", "--target", "i686-unknown-linux-gnu", "-p", "mlv", "--bin", "mlv-miri", "--", if id == "C18" { "U32" } else { "L32" }, &count, &seed])
+                .args(["+nightly", "miri", "run", "-q", "--target", "i686-unknown-linux-gnu", "-p", "mlv", "--bin", "mlv-miri", "--", if id == "C18" { "U32" } else if id == "C12" { "C12" } else { "L32" }, &count, &seed])
                 .env("MIRIFLAGS", "-Zmiri-tree-borrows -Zmiri-disable-isolation -Zmiri-no-extra-rounding-error")
                 .env("CARGO_TARGET_DIR", verif_dir.join("build").join("miri"))
                 .env("CARGO_NET_OFFLINE", "true")
